@@ -170,6 +170,21 @@ func runC09(permsFile, rowsFile string, seed int64, b *hc.Builder) {
 			body := strings.TrimSuffix(strings.TrimPrefix(out, "ids=List("), ")")
 			return out, strings.Split(body, ","), nil
 		}},
+		// the hash-bucket implementation behind bytes, record, complex and custom-typeref keys
+		{"batchids-generic", func(keys []string) (string, []string, error) {
+			set := batchkeyset.NewBytesKeySet()
+			for _, k := range keys {
+				if err := set.AddKey([]byte(k)); err != nil {
+					return "", nil, err
+				}
+			}
+			out, err := set.EncodeQueryParams()
+			if err != nil {
+				return out, nil, err
+			}
+			body := strings.TrimSuffix(strings.TrimPrefix(out, "ids=List("), ")")
+			return out, strings.Split(body, ","), nil
+		}},
 	}
 	for sc.Scan() {
 		var row struct {
@@ -201,8 +216,8 @@ func runC09(permsFile, rowsFile string, seed int64, b *hc.Builder) {
 			}
 			stats["encodings"]++
 			// values differ with the supply order in this replay (the index), so compare orders, and bytes per order
-			skipOrder := s.name == "batchids" && nonASCII // ids ascend in ENCODED form: %C3%A9 sorts before letters
-			if s.name == "batchids" {
+			skipOrder := strings.HasPrefix(s.name, "batchids") && nonASCII // ids ascend in ENCODED form: %C3%A9 sorts before letters
+			if strings.HasPrefix(s.name, "batchids") {
 				for i := range order {
 					if u, err := restliUnescape(order[i]); err == nil {
 						order[i] = u
